@@ -238,6 +238,11 @@ func (w *storeWorld) do(ctx context.Context, op StoreOp, ev map[string]interface
 	cols := []string{}
 	var err error
 	p := w.sc.path(w.srv, op.C, op.N)
+	if cl == 1 {
+		// the second client names objects relative to the endpoint (http://example.com/): what comes back must still be the
+		// backend's (absolute) path
+		p = strings.TrimPrefix(p, "/")
+	}
 	if op.Flt != "" {
 		var ferr error
 		switch op.Flt {
